@@ -36,6 +36,7 @@ type Solver struct {
 	logF    *os.File
 	Answers []SatResult // answers in order (when transcript enabled)
 	Dead    bool
+	lastAssert string
 	lines   chan string
 	Paths   int
 }
@@ -190,8 +191,12 @@ func (s *Solver) Check() (SatResult, string) {
 	t0 := time.Now()
 	s.in.Flush()
 	r, msg := s.readAnswer()
-	s.Time += time.Since(t0)
+	d := time.Since(t0)
+	s.Time += d
 	s.Queries++
+	if slowQueryLog && d > 2*time.Second {
+		fmt.Fprintf(os.Stderr, "SLOW QUERY %.1fs -> %v: %s\n", d.Seconds(), r, s.lastAssert)
+	}
 	if s.log != nil {
 		s.Answers = append(s.Answers, r)
 	}
@@ -199,7 +204,14 @@ func (s *Solver) Check() (SatResult, string) {
 }
 
 // CheckAssuming: push; assert; check; pop.
+var slowQueryLog = os.Getenv("SYMGO_SLOWQ") != ""
+
 func (s *Solver) CheckWith(assertion string) (SatResult, string) {
+	if len(assertion) > 300 {
+		s.lastAssert = assertion[:300]
+	} else {
+		s.lastAssert = assertion
+	}
 	s.Push()
 	s.Send("(assert " + assertion + ")")
 	r, m := s.Check()
